@@ -47,6 +47,13 @@ TrIns == /\ IsEvent("ins") /\ Consume
          /\ Mode = "map" => Ev.n = Size'
          /\ nextId' = Max2(nextId, Max2(Ev.kid, Ev.vid) + 1)
          /\ UNCHANGED <<ty, nf>>
+(* an insert of a new key for whose node no memory could be had: nothing is stored, nothing is destroyed (the pair stays the caller's) *)
+TrInsFail == /\ IsEvent("insfail") /\ Consume /\ alive /\ Ev.k \notin DOMAIN m
+             /\ (Mode = "own" => Ev.d = <<>>)
+             /\ (Mode = "map" => Ev.n = Size /\ Ev.found = 0)
+             /\ nextId' = Max2(nextId, Max2(Ev.kid, Ev.vid) + 1)
+             /\ dead' = dead \cup {<<"K", Ev.kid>>, <<"V", Ev.vid>>}          \* accounted for: the caller threw the pair away itself
+             /\ UNCHANGED <<m, alive, lastD, lastR, ty, nf>>
 TrRem == /\ IsEvent("rem") /\ Consume
          /\ TRemove(Ev.k)
          /\ DOK(Ev.d)
@@ -99,6 +106,6 @@ TrReset == /\ IsEvent("Reset") /\ Consume
            /\ m' = <<>> /\ alive' = FALSE /\ dead' = {} /\ lastD' = {} /\ lastR' = FALSE
            /\ nextId' = 1 /\ ty' = 0 /\ nf' = 0
 
-TNext == TrDeep \/ TrNew \/ TrIns \/ TrRem \/ TrClr \/ TrFre \/ TrObs \/ TrObsS \/ TrFst \/ TrReset
+TNext == TrDeep \/ TrNew \/ TrInsFail \/ TrIns \/ TrRem \/ TrClr \/ TrFre \/ TrObs \/ TrObsS \/ TrFst \/ TrReset
 TSpec == TInit /\ [][TNext]_tvars
 ====
